@@ -14,16 +14,16 @@ import (
 // it injects short writes and write errors according to the request's plan and
 // records every call.
 type Spy struct {
-	req     *Req
-	H       http.Header
-	Sent    http.Header // snapshot of H when the status went out
-	Code    int         // first status accepted (0: none yet)
-	Implicit bool       // the status was implied by a body write / flush
-	Body    []byte
-	NStatus int // number of statuses accepted (superfluous ones included)
-	NWrite  int
-	NFlush  int
-	plan    []WFault
+	req      *Req
+	H        http.Header
+	Sent     http.Header // snapshot of H when the status went out
+	Code     int         // first status accepted (0: none yet)
+	Implicit bool        // the status was implied by a body write / flush
+	Body     []byte
+	NStatus  int // number of statuses accepted (superfluous ones included)
+	NWrite   int
+	NFlush   int
+	plan     []WFault
 }
 
 // ErrInjected is the error returned by injected write faults.
